@@ -284,7 +284,7 @@ class C08(Property):
     required_theorems = (
         'decode_encode', 'encode_decode_encode', 'decode_normal', 'canonVal_idem', 'written_value_is_read_back',
         'readBack_written', 'tables_have_unique_names', 'cycle_fixed_point', 'cycle_idempotent', 'tableOf_ok', 'cycle_twice',
-        'cycleOnt_twice', 'cycleOnt_sorted_complete',
+        'cycleOnt_twice', 'cycleOnt_sorted_complete', 'cycleOnt_order_free',
     )
     level_text = ('Lean 4 theorems over a model of the generate_xml / create_from_xml pairs. Attribute level (one table of attribute '
                   'rules per element class: always written, left out when None, left out at the default, left out when falsy, written '
